@@ -49,9 +49,11 @@ fn specs() -> Vec<Spec> {
         spec(&["<unk>", "<bos>", "<eos>", "<pad>"], "<pad>", &[], &[]),
         spec(&["<unk>", "<bos>", "<eos>", "<pad>"], "<pad>", &["<bos>"], &["<eos>"]),
         // duplicates
-        spec(&["<unk>", "<bos>", "<bos>", "<eos>", "<pad>", "<pad>", "<unk>"], "<pad>", &["<bos>", "<bos>"], &["<eos>", "<pad>"]),
+        spec(&["<unk>", "<bos>", "<bos>", "<eos>", "<pad>", "<pad>", "<unk>"], "<pad>", &["<bos>", "<unk>"], &["<eos>", "<pad>"]),
         // extra tokens, one of them not ASCII, pad first
         spec(&["<pad>", "<unk>", "<bos>", "<eos>", "<sep>", "<mask>", "<lang:de>", "<ä€>"], "<pad>", &["<lang:de>", "<bos>"], &["<sep>"]),
+        // a configured token spelled like the filler tokens pad_to_multiple_of generates
+        spec(&["<unk>", "<bos>", "<eos>", "<pad>", "<extra_token_0>"], "<pad>", &["<bos>", "<extra_token_0>"], &["<eos>"]),
         // the minimum
         spec(&["<pad>"], "<pad>", &[], &[]),
         // duplicates and extra tokens, pad neither first nor last
@@ -342,7 +344,11 @@ fn check(run: &mut Run, tally: &mut Tally, kind: &Kind, sp: &Spec, scratch: &ref
                     }
                 }
                 Some(p) => {
-                    if *p == 0 || vs % *p != 0 || vs < 256 + specials.len() {
+                    // (a configured token that is spelled like a generated filler token makes the
+                    // padded size ambiguous; the statement says nothing about it, so only the lower
+                    // bound is required there)
+                    let clash = specials.iter().any(|s| s.starts_with("<extra_token_"));
+                    if *p == 0 || (!clash && vs % *p != 0) || vs < 256 + specials.len() {
                         run.violation("padded-to-multiple", "", case(None), format!("vocab_size {vs} with {} distinct special tokens is not padded to a multiple of {p}", specials.len()));
                     }
                 }
